@@ -671,6 +671,9 @@ func (r *c09Run) sweepReader() {
 			if ob.Kind == "" {
 				continue
 			}
+			if !sweep && ob.How == "isolated" {
+				in, ob = r.minimiseReader(in, ob)
+			}
 			sig := c09ReaderSig(in, ob.Kind, ob.Res.Stage)
 			if ob.How != "isolated" {
 				sig += " how=" + ob.How
@@ -794,12 +797,21 @@ func (r *c09Run) sweepFormat() {
 			if ob.Kind == "" {
 				continue
 			}
+			text := units[u][k].Text
+			sweep := fc.table
+			if !fc.table && ob.How == "isolated" {
+				// a seeded case: reduce it to the parts and arguments that matter; when one
+				// directive instance is left the case is a cell of the table (listed or not)
+				fc, ob = r.minimiseFormat(fc, ob)
+				text = c09FmtCall(fc.ctl, fc.args)
+				sweep = len(fc.segs) == 1 && fc.segs[0] != "mutated" && len(fc.args) <= 2
+			}
 			sig := fc.sig(ob.Kind)
 			if ob.How != "isolated" {
 				sig += " how=" + ob.How
 			}
-			dump = append(dump, fmt.Sprintf("%s\t%v\t%s\t%s", sig, fc.table, units[u][k].Text, ob.Res.Summary()))
-			r.report(sig, fc.table, units[u][k].Text, "E", ob, "format")
+			dump = append(dump, fmt.Sprintf("%s\t%v\t%s\t%s", sig, fc.table, text, ob.Res.Summary()))
+			r.report(sig, sweep, text, "E", ob, "format")
 		}
 	}
 	sort.Strings(dump)
@@ -845,6 +857,95 @@ func (r *c09Run) sweepFormat() {
 		c.Ev.Coverage["format_model_agree"] = agree
 		r.groupCorrespondence()
 	}
+}
+
+// minimiseReader: byte-wise reduction of a faulting seeded reader input (same fault kind kept).
+func (r *c09Run) minimiseReader(in string, ob c09Obs) (string, c09Obs) {
+	conf := r.eng.Confirming()
+	budget := 80
+	for size := len(in) / 2; size >= 1 && budget > 0; size /= 2 {
+		for i := 0; i+size <= len(in) && budget > 0; {
+			cand := in[:i] + in[i+size:]
+			budget--
+			rs := conf.RunUnit([]c09Case{{"R", cand}}, true)[0]
+			if kind := c09FaultKind(rs); kind == ob.Kind {
+				in, ob = cand, c09Obs{Res: rs, Kind: kind, How: "isolated"}
+			} else {
+				i += size
+			}
+		}
+	}
+	return in, ob
+}
+
+// minimiseFormat reduces a faulting seeded format case: parts of a composite are dropped (a
+// mutated control string loses bytes) and then arguments are dropped from the end, as long as a
+// fault of the same kind remains. Every candidate runs alone in a fresh worker.
+func (r *c09Run) minimiseFormat(fc c09FmtCase, ob c09Obs) (c09FmtCase, c09Obs) {
+	conf := r.eng.Confirming()
+	conf.RSSCap = 512 << 20
+	budget := 60
+	try := func(cand c09FmtCase) (c09Obs, bool) {
+		if budget <= 0 {
+			return c09Obs{}, false
+		}
+		budget--
+		rs := conf.RunUnit([]c09Case{{"E", c09FmtCall(cand.ctl, cand.args)}}, true)[0]
+		if kind := c09FaultKind(rs); kind == ob.Kind {
+			return c09Obs{Res: rs, Kind: kind, How: "isolated"}, true
+		}
+		return c09Obs{}, false
+	}
+	rebuild := func(c *c09FmtCase) {
+		c.ctl = strings.Join(c.parts, "")
+		c.segs = nil
+		for _, l := range c.labels {
+			if l != "" {
+				c.segs = append(c.segs, l)
+			}
+		}
+		if len(c.segs) == 0 {
+			c.segs = []string{"literal"}
+		}
+	}
+	changed := true
+	for changed && budget > 0 {
+		changed = false
+		if fc.parts != nil {
+			for i := len(fc.parts) - 1; i >= 0 && len(fc.parts) > 1; i-- {
+				cand := fc
+				cand.parts = append(append([]string{}, fc.parts[:i]...), fc.parts[i+1:]...)
+				cand.labels = append(append([]string{}, fc.labels[:i]...), fc.labels[i+1:]...)
+				rebuild(&cand)
+				if o, ok := try(cand); ok {
+					fc, ob, changed = cand, o, true
+				}
+			}
+		} else {
+			// byte-wise for mutated strings: halves first, then single bytes
+			for size := len(fc.ctl) / 2; size >= 1 && budget > 0; size /= 2 {
+				for i := 0; i+size <= len(fc.ctl) && budget > 0; {
+					cand := fc
+					cand.ctl = fc.ctl[:i] + fc.ctl[i+size:]
+					if o, ok := try(cand); ok {
+						fc, ob, changed = cand, o, true
+					} else {
+						i += size
+					}
+				}
+			}
+		}
+		for len(fc.args) > 0 && budget > 0 {
+			cand := fc
+			cand.args = fc.args[:len(fc.args)-1]
+			o, ok := try(cand)
+			if !ok {
+				break
+			}
+			fc, ob, changed = cand, o, true
+		}
+	}
+	return fc, ob
 }
 
 // groupCorrespondence: the digit grouping of ~:D — the model's slices (Theorems.C09
